@@ -2,6 +2,7 @@
 Serialization for the SimpleDMRS format.
 """
 
+import re
 from pathlib import Path
 
 from delphin.dmrs import (
@@ -175,6 +176,8 @@ def _decode_dmrs(lexer):
     if lexer.accept_type(LBRACKET):
         lnk = _decode_lnk(lexer)
         surface = lexer.accept_type(DQSTRING)
+        if surface is not None:
+            surface = _unescape(surface)
         graphprops = dict(_decode_properties(lexer))
         top = graphprops.get('TOP')
         index = graphprops.get('INDEX')
@@ -221,6 +224,7 @@ def _decode_node(nodeid, lexer):
     carg = None
     if lexer.accept_type(LPAREN):
         carg, _ = lexer.expect_type(DQSTRING, RPAREN)
+        carg = _unescape(carg)
     nodetype = None
     if lexer.peek()[0] == SYMBOL and lexer.peek(1)[0] != EQUALS:
         nodetype = lexer.expect_type(SYMBOL)
@@ -281,7 +285,7 @@ def _encode_attrs(d, lnk):
         if d.lnk:
             attrs.append(str(d.lnk))
         if d.surface is not None:
-            attrs.append('"{}"'.format(d.surface))
+            attrs.append('"{}"'.format(_escape(d.surface)))
     if d.top is not None:
         attrs.append('top={}'.format(d.top))
     if d.index is not None:
@@ -296,7 +300,7 @@ def _encode_node(node, properties, lnk):
         nodeid=node.id,
         pred=node.predicate,
         lnk=str(node.lnk) if lnk else '',
-        carg='' if node.carg is None else '("{}")'.format(node.carg),
+        carg='' if node.carg is None else '("{}")'.format(_escape(node.carg)),
         sortinfo=_encode_sortinfo(node, properties))
 
 
@@ -311,6 +315,14 @@ def _encode_sortinfo(node, properties):
     if sortinfo:
         return ' ' + ' '.join(sortinfo)
     return ''
+
+
+def _escape(s):
+    return s.replace('\\', '\\\\').replace('"', '\\"')
+
+
+def _unescape(s):
+    return re.sub(r'\\(.)', r'\1', s)
 
 
 def _encode_link(link):
